@@ -499,7 +499,7 @@ func buildPathFromExpr(s *V2, root *expr.RootExpr, h *expr.HostExpr, route *expr
 		// By default tag with service name
 		tagNames = []string{route.Endpoint.Service.Name()}
 	}
-	for _, key := range route.FullPaths() {
+	for pathIndex, key := range route.FullPaths() {
 		// Remove any wildcards that is defined in path as a workaround to
 		// https://github.com/OAI/OpenAPI-Specification/issues/291
 		key = expr.HTTPWildcardRegex.ReplaceAllString(key, "/{$1}")
@@ -559,12 +559,14 @@ func buildPathFromExpr(s *V2, root *expr.RootExpr, h *expr.HostExpr, route *expr
 		}
 
 		operationID := fmt.Sprintf("%s#%s", endpoint.Service.Name(), endpoint.Name())
-		index := 0
-		for i, rt := range endpoint.Routes {
+		// count the full paths (one per base path) of the routes declared
+		// before this one, then the paths of this route handled so far
+		index := pathIndex
+		for _, rt := range endpoint.Routes {
 			if rt == route {
-				index = i
 				break
 			}
+			index += len(rt.FullPaths())
 		}
 		if index > 0 {
 			operationID = fmt.Sprintf("%s#%d", operationID, index)
